@@ -3,7 +3,8 @@
   1. NumPy ufunc calls -> operators          np.add(a, b) -> a + b ; np.negative(a) -> -a ; np.multiply / subtract / divide / power / matmul
   2. ndarray method forms -> function forms  (kernel modules only, where every receiver is an ndarray)
                                              a.sum(axis=k) -> np.sum(a, axis=k) ; a.reshape(p, q) -> np.reshape(a, (p, q)) ; a.transpose(1, 2, 0) -> np.transpose(a, (1, 2, 0))
-  3. private helper inlining                 module-level functions / methods whose name starts with '_' and whose body is straight-line code
+  3. x = a if c else b  ->  if c: x = a / else: x = b   (also for return)
+  4. private helper inlining                 module-level functions / methods whose name starts with '_' and whose body is straight-line code
                                              ending in one `return` are inlined at their call sites (statement position; pure single-expression
                                              helpers also in expression position).  Locals of the helper are renamed apart.
 
@@ -55,6 +56,34 @@ class Spelling(ast.NodeTransformer):
                 new_args = [recv] + args
             f = ast.copy_location(ast.Attribute(value=ast.copy_location(ast.Name(id='np', ctx=ast.Load()), node), attr=m, ctx=ast.Load()), node)
             return ast.copy_location(ast.Call(func=f, args=new_args, keywords=node.keywords), node)
+        return node
+
+
+class IfAssign(ast.NodeTransformer):
+    """x = a if c else b   ->   if c: x = a
+                                else: x = b            (statement-level conditional expressions become branches: the CFG then carries the
+    return a if c else b   ->   if c: return a          condition as a path fact, exactly as for the hand-written if / else form)
+                                else: return b"""
+    def _split(self, node, make):
+        v = node.value
+        body, orelse = make(v.body), make(v.orelse)
+        for x in (body, orelse):
+            ast.copy_location(x, node)
+        new = ast.copy_location(ast.If(test=v.test, body=[self.visit(body)], orelse=[self.visit(orelse)]), node)
+        return new
+
+    def visit_Assign(self, node):
+        if isinstance(node.value, ast.IfExp) and len(node.targets) == 1 and isinstance(node.targets[0], (ast.Name, ast.Attribute)):
+            import copy
+            return self._split(node, lambda val: ast.Assign(targets=[copy.deepcopy(node.targets[0])], value=val))
+        return node
+
+    def visit_Return(self, node):
+        if isinstance(node.value, ast.IfExp):
+            return self._split(node, lambda val: ast.Return(value=val))
+        return node
+
+    def visit_Lambda(self, node):
         return node
 
 
@@ -259,6 +288,7 @@ class Inliner:
 
 def normalize_module(tree, modname):
     Spelling(methods=modname in KERNEL_MODULES).visit(tree)
+    IfAssign().visit(tree)
     inl = Inliner(tree)
     if inl.helpers or inl.methods:
         for n in tree.body:
